@@ -62,8 +62,11 @@ func NewDHashClient(options ...Option) (*DHashClient, error) {
 			opts.providersURLs = []string{opts.dhstoreURL}
 		}
 
+		// The provider lookups go through the same HTTP client as the
+		// dhstore lookups (the option is given before the source URLs, which
+		// take the client as it is when they are applied).
 		pc, err = pcache.New(pcache.WithTTL(opts.pcacheTTL), pcache.WithPreload(opts.preload),
-			pcache.WithSourceURL(opts.providersURLs...))
+			pcache.WithClient(opts.httpClient), pcache.WithSourceURL(opts.providersURLs...))
 		if err != nil {
 			return nil, err
 		}
